@@ -7,8 +7,11 @@
      tag index(t)    is a permutation of  the (relationship-free) elements of G carrying t,
      label index(l)  is a permutation of  the (relationship-free) elements of G on a voxel of body l,
      count(i, l)     =  number of elements of G on body l of type i,
-   and positions in G are pairwise distinct.  [fixed] is the code with the four repairs of
-   repo_patches/C13-*-fix.diff applied, [impl] the code as found. *)
+   and positions in G are pairwise distinct.  [fixed] is the code with the repairs of
+   repo_patches/C13-*-fix.diff applied, [impl] the code as found.  [guard] asks only: for a POST an
+   iteration order of its blocks; for DELETE / move that the element's referrers are in its block or
+   referenced back by it; for POST blocks distinct block keys; for label events that the payload
+   describes the volume change. *)
 From DV Require Import Base.Prelude Model.Annot Gen.Consts Proofs.AnnotBase Proofs.Annot.
 From Coq Require Import Permutation.
 Local Open Scope Z_scope.
@@ -46,14 +49,32 @@ Theorem C13_delete_removes_references : forall bs G s p,
 Proof. exact delete_removes_references. Qed.
 Print Assumptions C13_delete_removes_references.
 
-(* after a move f -> t every partner that referenced f is stored referencing t, not f *)
+(* after an accepted move f -> t every partner that referenced f is stored referencing t, not f *)
 Theorem C13_move_updates_references : forall bs G s f t,
-  Views bs G s -> guard bs G (body s) (OMove f t) -> in_posb f G = true ->
+  Views bs G s -> guard bs G (body s) (OMove f t) -> move_check f t G G = None ->
   forall q, In q G -> e_pos q <> f -> refs f q = true ->
   exists q', In q' (bget (blk (step_or_stay fixed bs (OMove f t) s)) (blockOf bs (e_pos q)))
              /\ e_pos q' = e_pos q /\ refs t q' = true /\ refs f q' = false.
 Proof. exact move_updates_references. Qed.
 Print Assumptions C13_move_updates_references.
+
+(* ill-formed requests are rejected and change nothing (C13-7-fix, C13-8-fix): two elements at one
+   position, a repeated tag, a block element outside its block; a move
+   of a missing element, onto an occupied position, or of an element related to its own or to the
+   target position.  [C13_views_step] therefore needs no well-formedness hypothesis about them. *)
+Theorem C13_rejected_is_noop : forall bs o s, step fixed bs o s = Err -> step_or_stay fixed bs o s = s.
+Proof. exact rejected_is_noop. Qed.
+Print Assumptions C13_rejected_is_noop.
+Theorem C13_ill_formed_post_rejected : forall bs ord es s, elems_ok es = false -> step fixed bs (OPost ord es) s = Err.
+Proof. exact ill_formed_post_rejected. Qed.
+Print Assumptions C13_ill_formed_post_rejected.
+Theorem C13_ill_formed_blocks_rejected : forall bs bl s, blocks_ok bs bl = false -> step fixed bs (OReload bl) s = Err.
+Proof. exact ill_formed_blocks_rejected. Qed.
+Print Assumptions C13_ill_formed_blocks_rejected.
+Theorem C13_bad_move_rejected : forall bs G s f t, Views bs G s ->
+  (exists r, move_check f t G G = Some r /\ r <> Ok tt) -> step fixed bs (OMove f t) s = Err.
+Proof. exact bad_move_rejected. Qed.
+Print Assumptions C13_bad_move_rejected.
 
 (* dvid's Chunk / PointInChunk arithmetic (truncating division with its negative-coordinate
    correction) is floor division and floor modulo, in every dimension, for every coordinate *)
